@@ -123,7 +123,7 @@ def walk(ctx, report, facts, config, rule="C20.WALK"):
     report.ob("C20.PRINT", "print_par_seq", okp, "prints `self` with {:#?}" if okp else "print_par_seq does not format self", site=pp.loc(), config=config)
 
 
-def run(ctx, report):
+def _run_rules(ctx, report):
     for config in ctx.configs:
         facts = ctx.facts(config)
         report.guard("C20.TOTAL", total, ctx, report, facts, config)
@@ -133,3 +133,10 @@ def run(ctx, report):
         report.guard("C20.SAME", B.ids, ctx, report, "C20.SAME", facts, config, True)
     P.check(ctx, report, "C20.TOTAL", ["panic_constructs"])
     P.check(ctx, report, "C20.WALK", ["partial_traversals"])
+
+
+def run(ctx, report):
+    _run_rules(ctx, report)
+    from .. import shared as _S
+    for config in ctx.configs:
+        report.guard("C20.ENCAPSULATED", _S.encapsulated, ctx, report, "C20.ENCAPSULATED", ctx.facts(config), config, "C20")
